@@ -56,6 +56,12 @@ SNIPPETS = [
     # the reduction value is uninterpreted in the model: only the shape rule is compared
     ('reductions keepdims: shape only', "def f(a, b, v):\n    return a.max(axis=0, keepdims=True)\n", dict(shape_only=True)),
     ('reductions without keepdims: shape only', "def f(a, b, v):\n    return a.sum(axis=1)\n", dict(shape_only=True)),
+    # for statements over containers that the body mutates (CPython: size check of dict iterators, positional walk of lists)
+    ('dict resized during iteration raises RuntimeError', "def f(a, b, v):\n    d = {'x': 1, 'y': 2, 'z': 3}\n    n = 0\n    try:\n        for k in d:\n            n += 1\n            if k == 'y':\n                del d[k]\n    except RuntimeError:\n        return a * 0 + 50 + n\n    return a\n"),
+    ('dict resized in the LAST iteration raises as well', "def f(a, b, v):\n    d = {'x': 1, 'y': 2}\n    try:\n        for k in d:\n            if k == 'y':\n                d['w'] = 3\n    except RuntimeError:\n        return a * 0 + 7\n    return a\n"),
+    ('dict resized then break: no error', "def f(a, b, v):\n    d = {'x': 1, 'y': 2}\n    for k in d:\n        del d[k]\n        break\n    return a * 0 + len(d)\n"),
+    ('iteration over list(d) while deleting from d', "def f(a, b, v):\n    d = {'x': 1, 'y': 2, 'z': 3}\n    for k in list(d):\n        if k != 'y':\n            del d[k]\n    return a * 0 + len(d)\n"),
+    ('list grown during iteration is walked to its new end', "def f(a, b, v):\n    L = [1, 2, 3]\n    n = 0\n    for x in L:\n        if x < 3:\n            L.append(x + 10)\n        n += x\n    return a * 0 + n\n"),
     # negative control: numpy runs a different function -- the comparison MUST report a disagreement
     ('control (must disagree)', "def f(a, b, v):\n    return a * 2\n", dict(numpy_text="def f(a, b, v):\n    return a * 2 + (a > 0.5)\n", must_differ=True)),
     ('uint8 store of int32 values wraps', "def f(a, b, v):\n    z = np.zeros((2, 2), dtype='uint8')\n    z[0, :] = np.int32(a[0, :2] * 600 - 100)\n    z[1, 0] = np.int32(255)\n    return z\n"),
